@@ -254,22 +254,63 @@ impl QueryFilter {
         }
     }
 
-    /// Extract predicates from an expression recursively
+    /// Extract predicates from an expression recursively.
+    ///
+    /// Top-level conjuncts become separate entries of `predicates` (`apply` ANDs
+    /// them); a disjunction is kept as one `ColumnPredicate::Or` tree so that a
+    /// row matching either side is delivered.
     fn extract_predicates_from_expr(expr: &Expr, predicates: &mut Vec<ColumnPredicate>) {
         match expr {
-            Expr::BinaryOp { left, op, right } => {
-                if let Some(pred) = Self::try_extract_comparison(left, op, right) {
-                    predicates.push(pred);
-                }
-                if matches!(op, BinaryOperator::And | BinaryOperator::Or) {
-                    Self::extract_predicates_from_expr(left, predicates);
-                    Self::extract_predicates_from_expr(right, predicates);
-                }
+            Expr::BinaryOp {
+                left,
+                op: BinaryOperator::And,
+                right,
+            } => {
+                Self::extract_predicates_from_expr(left, predicates);
+                Self::extract_predicates_from_expr(right, predicates);
             }
             Expr::Nested(inner) => {
                 Self::extract_predicates_from_expr(inner, predicates);
             }
-            _ => {}
+            other => {
+                if let Some(pred) = Self::expr_to_predicate(other) {
+                    predicates.push(pred);
+                }
+            }
+        }
+    }
+
+    /// Convert a boolean expression into a predicate tree.
+    ///
+    /// Returns `None` when the live filter cannot evaluate the expression (no
+    /// filtering). An unsupported conjunct is dropped; a disjunction needs both
+    /// sides, otherwise rows matching the unsupported side would be lost.
+    fn expr_to_predicate(expr: &Expr) -> Option<ColumnPredicate> {
+        match expr {
+            Expr::BinaryOp {
+                left,
+                op: BinaryOperator::And,
+                right,
+            } => match (
+                Self::expr_to_predicate(left),
+                Self::expr_to_predicate(right),
+            ) {
+                (Some(l), Some(r)) => Some(ColumnPredicate::And(Box::new(l), Box::new(r))),
+                (Some(p), None) | (None, Some(p)) => Some(p),
+                (None, None) => None,
+            },
+            Expr::BinaryOp {
+                left,
+                op: BinaryOperator::Or,
+                right,
+            } => {
+                let l = Self::expr_to_predicate(left)?;
+                let r = Self::expr_to_predicate(right)?;
+                Some(ColumnPredicate::Or(Box::new(l), Box::new(r)))
+            }
+            Expr::BinaryOp { left, op, right } => Self::try_extract_comparison(left, op, right),
+            Expr::Nested(inner) => Self::expr_to_predicate(inner),
+            _ => None,
         }
     }
 
